@@ -1,5 +1,6 @@
 import Driver.C03Mon
 import OidcModel.Model.AuthzFlow
+import OidcModel.Model.AuthzFormPost
 open Kv
 
 /-! C03 driver, model side: the regenerated authorization-endpoint functions + the hand-written shells, run on the
@@ -12,7 +13,40 @@ structure FullSt where
   cfg : Authz.Cfg := {}
   router : Authz.Router := .provider
   deleted : List String := []     -- requests the storage has deleted (CreateTokenResponse consumes the request)
+  -- (round 4) the package-level state of pkg/op the regenerated `AuthResponseFormPost` program left behind (`none` = before the
+  -- first form_post answer of the process: `GenWire.formPostPkg`)
+  pkg : Option AuthzFP.Pkg := none
   deriving Inhabited
+
+def hexNib (c : Char) : Nat :=
+  if '0' ≤ c ∧ c ≤ '9' then c.toNat - '0'.toNat else if 'a' ≤ c ∧ c ≤ 'f' then c.toNat - 'a'.toNat + 10 else 0
+def hexBytes : List Char → List UInt8
+  | a :: b :: rest => UInt8.ofNat (hexNib a * 16 + hexNib b) :: hexBytes rest
+  | _ => []
+/-- `p=name,hexvalue,name,hexvalue,`: what the schema encoder wrote for this response -/
+def respOf : List String → AR.Values
+  | k :: v :: rest => (respOf rest).Add k.toUTF8.toList (hexBytes v.toList)
+  | _ => {}
+
+/-- (round 4) a callback answered on a connection that may break (`fp=1`): where the symbolic model answers with a form_post page,
+    the REGENERATED program of `AuthResponseFormPost` (C11's `GenWire.formPostProgram`) is run on the package-level state the
+    earlier answers left behind, on the page rendered from the regenerated template for THIS stored request's redirect URI, with
+    this line's connection fault.  Result: the model's response in canonical form (where the first form of the delivered document
+    points, or `page` when no form arrived), the state left behind, and whether the delivered bytes are the observed ones. -/
+def deliver (fs : FullSt) (o : UriOracle) (l : Line) (expected : String) : String × AuthzFP.Pkg × Bool :=
+  let uri := ((fs.st.stored.find? (·.id == str l "id")).map (·.redirectURI)).getD ""
+  let fault : FP.WFault := match str l "w.kind" with
+    | "err" => .err (nat l "w.k")
+    | "short" => .short (nat l "w.k")
+    | _ => .none
+  let res := FP.run GenWire.formPostProgram (AuthzFP.reqOf uri { resp := respOf (list l "p"), fault := fault })
+    (fs.pkg.getD GenWire.formPostPkg)
+  let shown := match AuthzFP.firstFormAction res.rw.body with
+    | some a =>
+      let a := AuthzFP.asciiStr a
+      "formpost:" ++ esc (if _root_.C03.destOf o a == _root_.C03.destOf o expected then expected else a) ++ ":-"
+    | none => "page"
+  (shown, res.pkg, res.rw.body == hexBytes (str l "o.body").toList && GenWire.formPostProgram.all FP.supported)
 
 def roOracle (l : Line) : AzRoOracle :=
   { ParseToken := fun _ =>
@@ -112,8 +146,13 @@ def step (fs : FullSt) (l : Line) : FullSt × String :=
         | .redirect (.response _ _ p) => p.kind == "token"
         | .formPost _ => !isCode
         | _ => false
-      ({ fs with st := st', deleted := if tokenIssued then str l "id" :: fs.deleted else fs.deleted },
-       showWrites ws, showObs fs o l (callbackClient fs.mon (str l "id")) expected)
+      let fs1 := { fs with st := st', deleted := if tokenIssued then str l "id" :: fs.deleted else fs.deleted }
+      if has l "fp" && ws.any AuthzFP.isFormPost then
+        let (shown, pkg', bytesOK) := deliver fs o l expected
+        ({ fs1 with pkg := some pkg' }, (if bytesOK then shown else shown ++ "!delivered-bytes-differ"),
+         showObs fs o l (callbackClient fs.mon (str l "id")) expected)
+      else
+      (fs1, showWrites ws, showObs fs o l (callbackClient fs.mon (str l "id")) expected)
     | _ => (fs, "?", "?")
   let agree := modelS == obsS
   ({ fs' with mon := mon' },
